@@ -28,7 +28,7 @@ from vf.sym import MV, SymName, SymRef, SymInt, SymBool, SymDict, NONEVAL, PyExc
 from vf.spec import Z3Ops, P, View, CallShape, PO, POK, VP, KWO, VK
 from vf.interp import Interp, Inst, IClass
 from vf.harness import VC, mk_sig, mk_call, sig_view, pview, run_unit
-from .common import clause, name_term, ua_denotes, stands_of
+from .common import clause, name_term, ua_denotes, stands_of, ua_follows_goal, ua_return_goal
 from .merge import exc_is, src_entries, key_eq, sym_sig_data, real_sig_data
 
 U = '_signatures.mask'
@@ -192,14 +192,10 @@ def mask_vcs(env, want):
                 out.append(VC(C_META.full + ':order', [], z3.BoolVal(pos_idx == sorted(pos_idx)), C_META.props))
     if on(C_UA):
         for p in rparams:
-            h, den = ua_denotes(p._d['upgraded_annotation'], EmptyAnn)
-            a = p._d['_annotation']
-            out.append(VC(C_UA.full + ':%s' % p._d.get('_vf_tag', '?'), [], z3.And(h == a.has, z3.Implies(a.has, den == a.val)), C_UA.props))
-        ra = res._d['_return_annotation']
-        ira = info.sig._d['_return_annotation']
-        h, den = ua_denotes(res._d['upgraded_return_annotation'], EmptyAnn)
-        out.append(VC(C_UA.full + ':return', [], z3.And(ra.has == ira.has, z3.Implies(ira.has, ra.val == ira.val),
-                                                        h == ra.has, z3.Implies(ra.has, den == ra.val)), C_UA.props))
+            o = p._d.get('_vf_origin')
+            cands = list({id(x): x for x in ([o] if o is not None else []) + stands_of(p)}.values())
+            out.append(VC(C_UA.full + ':%s' % p._d.get('_vf_tag', '?'), [], ua_follows_goal(p, EmptyAnn, cands=cands), C_UA.props))
+        out.append(VC(C_UA.full + ':return', [], ua_return_goal(res, info.sig, EmptyAnn), C_UA.props))
     if on(C_HIDE_SOUND) and not nohide and origin_ok:
         # witness call for sig (weak reading, see DESIGN 5/C03): hidden positional category -> pass exactly the
         # required positionals; hidden keyword category -> pass exactly the required keyword parameters that the
@@ -280,6 +276,8 @@ def law_vcs(env, on):
 
 def make_runner(shape, nnames=1, mode='mask', want=None, hide=True, perm=None):
     I = Interp()
+    from vf import world as _world
+    _world.install_externals(I, {})     # eval(expression, f.__globals__) is the uninterpreted evalin
     m = I.module('sigtools._signatures')
     env = {'interp': I, 'mode': mode}
     mask = m.ns['mask']
